@@ -58,6 +58,11 @@ class Gen:
             if names and r.random() < 0.7:
                 return r.choice(names)
             return str(r.randint(1, 9))
+        if k < 0.36 and depth > 0 and u.kind != "dtor":
+            # first use of a generic specialisation: its statics are initialised on the spot, in the middle
+            # of whatever unit happens to run
+            u.calls.add("Gen")
+            return "new Gen<int>(%s).get()" % self.int_expr(u, depth - 1)
         if k < 0.55 and u.cls:
             f = r.choice(self.fields_of(u.cls) + STATICS)
             if u.kind == "static":
@@ -231,6 +236,9 @@ class Gen:
                 m[rename[1]] = rename[2]
             return re.sub(r"\{(\w+)\}", lambda mo: m[mo.group(1)], line)
 
+        out.append("class Gen<T> {\n    public static int gseen = 5;\n    public static int gnext = gseen + 1;\n    public T item;\n"
+                   "    public constructor(T item) -> Gen<T> {\n        this.item = item;\n        gseen = gseen + 1;\n        return this;\n    }\n"
+                   "    public function get() -> T {\n        return this.item;\n    }\n}")
         for cls in ("A", "B"):
             out.append("class %s%s {" % (cls, " extends A" if cls == "B" else ""))
             for f in (FIELDS_A if cls == "A" else FIELDS_B):
@@ -281,13 +289,12 @@ class Gen:
         for u in self.units:
             own = set(self.names_of(u))
             # names the unit's body uses freely (must not be captured)
-            free = set(u.free) | {v.name for v in self.units} | {"A", "B", "this", "echo"}
+            free = set(u.free) | {v.name for v in self.units} | {"A", "B", "Gen", "this", "echo"}
             if u.cls and u.kind == "static":
                 # a static method can name statics only: an instance-field name is free for its locals
                 free |= set(STATICS)
-            elif u.cls:
-                # a bare name in a method may also denote any accessible field/static of its hierarchy
-                free |= set(self.fields_of(u.cls)) | set(STATICS)
+            # (a method may shadow a field or static of its own class with a local or parameter as long as
+            # its body does not use that member by bare name: u.free holds the members it does use)
             for old in sorted(own):
                 out.append((u.name, old, "zz_fresh_%s" % old, "fresh"))
                 for tgt, owner in sorted(all_locals.items()):
@@ -296,7 +303,7 @@ class Gen:
                 for f in FIELDS_A + FIELDS_B + PRIVATE_A:
                     if f not in free and f not in own:
                         out.append((u.name, old, f, "field"))
-                for s in STATICS:
+                for s in STATICS + ["gseen", "gnext", "item"]:
                     if s not in free and s not in own:
                         out.append((u.name, old, s, "static"))
                 for c in fixed:
